@@ -170,3 +170,139 @@ Print Assumptions C12_size_index_contexts_wrt_path_executions.
 Print Assumptions C12_subroutine_blocks_shared.
 Print Assumptions C12_program_text.
 Print Assumptions C12_loop_reentry_refuted.
+
+(* ------------------------------------------------------------------------------------------------------------
+   Extension (function construction regenerated): theorems from Lemmas/FunctionGenLemmas.v about Gen/FunctionGen.v,
+   the translation of parse_functions.py construct_function (dispatch-path walk, off-path cutting loop, main blocks,
+   used-subroutine closure, Function record).  copy_main_cfg is fingerprinted, not translated. *)
+From Coq Require Import String List NArith ZArith Bool Arith.
+From Tealer Require Import Tables LeafPrelude Leaves Syntax Parse Cfg StackAst Keys Analysis Domains Detect Group KeysGen FunctionGen CfgLemmas SubLemmas GraphWf GroupLemmas CutExec CutExecEx CutGraphOk SubOrderEx FunctionGenLemmas.
+
+(* the regenerated construct_function returns the function of the model, with the err-block id and line tables, for every parsed contract and accepted path *)
+Theorem C12_function_gen_eq :
+      forall (p : prog) (t : teal) (path : list nat) (fmn : string) (f : func)
+         (errs : list (nat * (nat * nat))),
+       parse_teal p = Ok t ->
+       construct_function t path = Ok (f, errs) ->
+       exists h : fheap,
+         construct_function_gen (dfs_budget t path) (subs_budget t) t fmn path (function_blocks0 t) (heap0 t) =
+         Some (Some (Ok (f, h))) /\
+         fh_prog h = fn_prog f /\
+         fh_next_id h = fs_next_id (cut_path (fn_state0 t) path) /\
+         fh_idx h = map err_idx errs /\ fh_line h = map (err_line t) (enumerate errs).
+Proof. exact @construct_function_gen_eq. Qed.
+
+(* and rejects with the same exception *)
+Theorem C12_function_gen_rejected :
+      forall (p : prog) (t : teal) (path : list nat) (fmn e : string) (f1 f2 : nat),
+       parse_teal p = Ok t ->
+       construct_function t path = Err e ->
+       path <> nil ->
+       construct_function_gen f1 f2 t fmn path (function_blocks0 t) (heap0 t) = Some (Some (Err e)).
+Proof. exact @construct_function_gen_rejected. Qed.
+
+(* conversely, whatever the regenerated function returns is the model function *)
+Theorem C12_function_gen_inv :
+      forall (p : prog) (t : teal) (path : list nat) (fmn : string) (f : func) (h : fheap),
+       parse_teal p = Ok t ->
+       construct_function_gen (dfs_budget t path) (subs_budget t) t fmn path (function_blocks0 t) (heap0 t) =
+       Some (Some (Ok (f, h))) ->
+       exists errs : list (nat * (nat * nat)),
+         construct_function t path = Ok (f, errs) /\ fh_idx h = map err_idx errs.
+Proof. exact @construct_function_gen_inv. Qed.
+
+(* dispatch-path walk of the source *)
+Theorem C12_walk_gen_eq :
+      forall (p : prog) (t : teal),
+       parse_teal p = Ok t ->
+       forall path : list nat,
+       dispatch_walk_gen (function_blocks0 t) path (heap0 t) = Some (walk_path t path (0 :: nil) nil).
+Proof. exact @dispatch_walk_gen_eq. Qed.
+
+(* accepted paths are duplicate-free chains of the main graph starting at block 0 *)
+Theorem C12_walk_gen_spec :
+      forall (p : prog) (t : teal),
+       parse_teal p = Ok t ->
+       forall path r : list nat,
+       dispatch_walk_gen (function_blocks0 t) path (heap0 t) = Some (Ok r) ->
+       r = path /\
+       NoDup path /\
+       chain t (0 :: nil) path /\ (forall (b : nat) (rest : list nat), path = b :: rest -> b = 0).
+Proof. exact @dispatch_walk_gen_spec. Qed.
+
+(* cutting loop of the source *)
+Theorem C12_cut_gen_eq :
+      forall (p : prog) (t : teal),
+       parse_teal p = Ok t ->
+       forall path dpb : list nat,
+       walk_path t path (0 :: nil) nil = Ok dpb ->
+       cut_path_gen dpb (heap0 t) = Some (heap_of t (cut_path (fn_state0 t) dpb)).
+Proof. exact @cut_path_gen_eq. Qed.
+
+(* after the cutting loop every successor of a path block is the next path block or a fresh err block *)
+Theorem C12_cut_gen_spec :
+      forall (p : prog) (t : teal),
+       parse_teal p = Ok t ->
+       forall (path : list nat) (h : fheap) (pre : list nat) (a b : nat) (post : list nat) (ab : block),
+       walk_path t path (0 :: nil) nil = Ok path ->
+       cut_path_gen path (heap0 t) = Some h ->
+       path = pre ++ a :: b :: post ->
+       tblock t a = Some ab ->
+       exists (ab' : block) (e0 : nat),
+         get_blk (fh_blocks h) a = Some ab' /\
+         b_ins ab' = b_ins ab /\
+         b_next ab' = cut_next (b_next ab) b e0 /\
+         S (max_idx (t_blocks t)) <= e0 /\
+         (forall e : nat,
+          In e (b_next ab') ->
+          e = b /\ In b (b_next ab) \/
+          S (max_idx (t_blocks t)) <= e /\
+          (exists pos : nat,
+             get_blk (fh_blocks h) e =
+             Some {| b_idx := e; b_ins := pos :: nil; b_next := nil; b_prev := a :: nil |} /\
+             op_at (fh_prog h) pos = Some ICustomErr)).
+Proof. exact @cut_path_gen_spec. Qed.
+
+(* used-subroutine closure of the source *)
+Theorem C12_used_subs_gen_eq :
+      forall (p : prog) (t : teal),
+       parse_teal p = Ok t ->
+       forall (heap : fheap) (fmb : list nat) (called : list string),
+       called_subroutines_gen t heap fmb FunctionMain = Some (map TealSub called) ->
+       NoDup called ->
+       incl called (map s_name (t_subs t)) ->
+       (forall fuel : nat,
+        used_subroutines_gen (S fuel) t fmb heap = Some None \/
+        used_subroutines_gen (S fuel) t fmb heap = Some (Some (map TealSub (used_subs fuel t called called)))) /\
+       used_subroutines_gen (S (S (Datatypes.length (t_subs t)))) t fmb heap =
+       Some (Some (map TealSub (used_subs (S (Datatypes.length (t_subs t))) t called called))).
+Proof. exact @used_subroutines_gen_eq. Qed.
+
+(* the function built by the regenerated code has a well-formed graph *)
+Theorem C12_function_gen_graph_ok :
+      forall (p : prog) (t : teal) (path : list nat) (fmn : string) (f : func) (h : fheap),
+       parse_teal p = Ok t ->
+       struct_ok t ->
+       construct_function_gen (dfs_budget t path) (subs_budget t) t fmn path (function_blocks0 t) (heap0 t) =
+       Some (Some (Ok (f, h))) -> ExecLemmas.graph_ok f.
+Proof. exact @construct_function_gen_graph_ok. Qed.
+
+(* and contains every run of the contract that follows the dispatch path *)
+Theorem C12_function_gen_run_complete :
+      forall (p : prog) (t : teal) (path : list nat) (fmn : string) (f : func) (h : fheap)
+         (cfgs : list Runs.rconfig),
+       parse_teal p = Ok t ->
+       construct_function_gen (dfs_budget t path) (subs_budget t) t fmn path (function_blocks0 t) (heap0 t) =
+       Some (Some (Ok (f, h))) -> Runs.Run (whole_function t) cfgs -> follows path cfgs -> Runs.Run f cfgs.
+Proof. exact @construct_function_gen_run_complete. Qed.
+
+Print Assumptions C12_function_gen_eq.
+Print Assumptions C12_function_gen_rejected.
+Print Assumptions C12_function_gen_inv.
+Print Assumptions C12_walk_gen_eq.
+Print Assumptions C12_walk_gen_spec.
+Print Assumptions C12_cut_gen_eq.
+Print Assumptions C12_cut_gen_spec.
+Print Assumptions C12_used_subs_gen_eq.
+Print Assumptions C12_function_gen_graph_ok.
+Print Assumptions C12_function_gen_run_complete.
